@@ -148,7 +148,13 @@ def run(ctx):
             ok0 = (mod_other if recheck else mod_same).startswith("ok")
             err1 = (mod_same if recheck else mod_other).startswith("error")
             code = re.search(r"error\[(E\d+)\]", es[0][1])
-            if ok0 and err1 and code and code.group(1) == "E0308":
+            if (m.get("planted") or "").startswith("c19:"):
+                # fixed witness of a known class: the planted field is its fingerprint
+                fp = m["planted"]
+                what = ("lalrpop accepts a well-typed grammar whose `<>` stands for a tuple pattern and expands it to the "
+                        "pattern text (`(mut a, b)` in expression position; `P {(a, b), c}` inside braces); rustc rejects "
+                        "the generated action: " + re.sub(r"\s+", " ", es[0][1].splitlines()[0])[:80])
+            elif ok0 and err1 and code and code.group(1) == "E0308":
                 fp = FP_SUPPRESSED
                 what = ("lalrpop accepts a grammar whose only ill-typed part is a default-action alternative on a cycle "
                         "(its inference error is swallowed in tyinfer::nonterminal_type and never re-checked); the generated "
